@@ -472,7 +472,7 @@ theorem Pres.readIref : Pres readIref := by
   unfold Bmff.readIref
   have := Pres.readFlags
   pres
-  all_goals exact Pres.innerLoop (h := fun _ => (Pure.pure () : M Unit)) (fun _ => Pres.pure ()) .cont _
+  all_goals exact Pres.innerLoop (h := fun _ => (Pure.pure () : M Unit)) (fun _ => Pres.pure ()) .brk _
 theorem Pres.readInfe : Pres readInfe := by
   unfold Bmff.readInfe
   pres
